@@ -116,6 +116,15 @@ func (q *Query) Text(withModel bool) string {
 	if used["str.ofbytes"] && used["bytes.ofstr"] {
 		axioms = append(axioms, "(assert (forall ((s Int)) (= (str.ofbytes (bytes.ofstr s)) s)))")
 	}
+	if used["time.nonzero"] {
+		ufMu.Lock()
+		sig, ok := ufSigs["time.nonzero"]
+		ufMu.Unlock()
+		if ok {
+			n := strings.Count(strings.SplitN(sig, ")", 2)[0], "Int")
+			axioms = append(axioms, "(assert (not (time.nonzero"+strings.Repeat(" 0", n)+")))")
+		}
+	}
 	if used["f64.mul"] {
 		// multiplying a float by powers of two is exact (no rounding; overflow gives +-Inf either way):
 		// (x*2^a)*2^b == x*2^(a+b) and x*1 == x, for the power-of-two literals that occur
@@ -162,6 +171,8 @@ func (q *Query) Text(withModel bool) string {
 	if q.ExpectSat {
 		axioms = nil
 	}
+	cgAx, cgDecl := constGlobalAxioms(used)
+	axioms = append(axioms, cgAx...)
 	for _, ax := range axioms {
 		for _, s := range symRe.FindAllString(ax, -1) {
 			used[s] = true
@@ -190,6 +201,16 @@ func (q *Query) Text(withModel bool) string {
 				}
 				continue
 			}
+		}
+		isCG := false
+		for _, d := range cgDecl {
+			if d == n {
+				isCG = true
+			}
+		}
+		if isCG {
+			fmt.Fprintf(&b, "(declare-const %s Int)\n", n)
+			continue
 		}
 		if strings.HasPrefix(n, "f64.lit.") {
 			fmt.Fprintf(&b, "(declare-const %s Int)\n", n) // introduced by a float axiom
